@@ -1,5 +1,5 @@
 CONSTANTS P = 103  A = 0  B = 5  Gx = 2  Gy = 42  N = 97
-          ZSet = {1, 97}  ZDeep = {}
+          ZSet = {98}  ZDeep = {}
 SPECIFICATION Spec
 INVARIANT ECDSALemmas
 CHECK_DEADLOCK FALSE
